@@ -236,7 +236,9 @@ def model_class(content, new_id, pre):
     return "partial-loadable"
 
 
-def run_config(ctx, drv, recipe, old_recipe, store, mode, pre, idx):
+def run_config(ctx, drv, recipe, old_recipe, store, mode, pre, idx, call="exact"):
+    """call: how the target is named in the save() call — "exact" (full path), "noext" (zip store,
+    path without the .zip extension that save() appends), "auto" (store inferred from the path)"""
     scratch = os.path.join(os.environ.get("QVERIF_SCRATCH", "/tmp"), "c08")
     base = os.path.join(scratch, f"s{idx}")
     builder = sc.Builder(None)
@@ -244,7 +246,7 @@ def run_config(ctx, drv, recipe, old_recipe, store, mode, pre, idx):
     old_obj = builder.build(old_recipe)
     spec_new, spec_old = sc.observe(obj), (sc.observe(old_obj) if pre == "earlier" else None)
     zip_store = store == "zip"
-    case0 = {"recipe": recipe, "old_recipe": old_recipe, "store": store, "mode": mode, "pre": pre}
+    case0 = {"recipe": recipe, "old_recipe": old_recipe, "store": store, "mode": mode, "pre": pre, "call": call}
     pre_content = {"absent": None, "file": ["foreign", 1], "dir": ["foreign", 2], "earlier": ["complete", 3]}[pre]
     NEW = 7
 
@@ -258,7 +260,12 @@ def run_config(ctx, drv, recipe, old_recipe, store, mode, pre, idx):
             rec.active = True
             try:
                 with contextlib.redirect_stdout(io.StringIO()):
-                    obj.save(target, mode=mode, store=store)
+                    if call == "noext" and zip_store:
+                        obj.save(target[: -len(".zip")], mode=mode, store="zip")
+                    elif call == "auto":
+                        obj.save(target, mode=mode)
+                    else:
+                        obj.save(target, mode=mode, store=store)
             except Injected:
                 raised = "Injected"
             except Exception as e:  # noqa
@@ -330,13 +337,14 @@ def run_config(ctx, drv, recipe, old_recipe, store, mode, pre, idx):
                               observed=[raised_k, state_k], required=["FileExistsError", "unchanged"])
             if hashes_k[0] != hashes_k[1]:
                 ctx.pred_fail("write-once-modified", "write-once mode modified an existing target", case, observed="hash changed", required="unchanged")
-        ctx.mark((store, mode, pre, case["step"], state_k, raised_k is not None))
+        ctx.mark((store, mode, pre, call, case["step"], state_k, raised_k is not None))
         ctx.dist[f"outcome:{state_k}"] += 1
         ctx.dist[f"step:{case['step']}"] += 1
         if mode == "w" and pre != "absent":
             break   # refused before any primitive: nothing to enumerate
     ctx.dist[f"trace_len:{min(n // 10 * 10, 60)}"] += 1
     ctx.dist[f"cfg:{store}:{mode}:{pre}"] += 1
+    ctx.dist[f"call:{call}"] += 1
     ctx.sample({"recipe": recipe, "store": store, "mode": mode, "pre": pre, "trace": trace[:40], "fault_positions": n}, limit=2)
     shutil.rmtree(base, ignore_errors=True)
 
@@ -404,7 +412,8 @@ def run(ctx):
             for store in ("zip", "dir"):
                 for mode, pre in (("o", "absent"), ("o", "earlier"), ("o", rng.choice(["file", "dir"])), ("w", "absent"),
                                   ("w", rng.choice(["file", "dir", "earlier"]))):
-                    run_config(ctx, drv, recipe, old_recipe, store, mode, pre, idx)
+                    call = rng.weighted([("exact", 3), ("auto", 1), ("noext", 2 if store == "zip" else 0)])
+                    run_config(ctx, drv, recipe, old_recipe, store, mode, pre, idx, call)
                     idx += 1
                 run_natural_failure(ctx, drv, recipe, store, rng.choice(["absent", "earlier"]), idx)
                 idx += 1
@@ -422,7 +431,8 @@ def replay(ctx, rep):
         if "unpicklable_at" in case:
             run_natural_failure(ctx, drv, case["recipe"], case["store"], case["pre"], case["unpicklable_at"])
         else:
-            run_config(ctx, drv, case["recipe"], case.get("old_recipe", ["obj", "SB", []]), case["store"], case["mode"], case["pre"], 0)
+            run_config(ctx, drv, case["recipe"], case.get("old_recipe", ["obj", "SB", []]), case["store"], case["mode"], case["pre"], 0,
+                       case.get("call", "exact"))
     finally:
         drv.close()
     return True
